@@ -69,6 +69,8 @@ def _run_random(cfg, prog, kind, seed, tid):
     rng = random.Random(seed)
     if kind == 'pct':
         st = sched.pct_strategy(rng, len(prog), rng.choice([1, 2, 3]), 40)
+    elif kind == 'hunter':
+        st = sched.hunter_strategy(rng, rng.choice([0.3, 0.6, 0.8]))
     else:
         st = sched.random_strategy(rng, rng.choice([0.2, 0.5, 0.8]))
     return [concdriver.run_program(cfg, prog, st, seed, tid)]
@@ -229,6 +231,24 @@ def run_c05(tier, seed):
         cfg = base_cfg(rng, rng.random() < 0.4, rng.choice(['absent', 'inline', 'file', 'both']),
                        stats=rng.random() < 0.25, policy=rng.choice(['lrs', 'lru', 'lfu', 'none']))
         jobs_rand.append((cfg, prog, rng.choice(['pct', 'random']), seed * 100000 + i, 0))
+    # threads sharing one Cache object (clients 1 and 2; client 3 has its own): the object's record of which thread
+    # owns the transaction must survive failing calls, waiting for the lock and the moment after its release
+    def rt(o):
+        o = dict(o, a=dict(o['a'], retry=1))
+        return o
+    fails = [op('incr', k=KB, d=1, df=[]), op('delete', k=KB, mk='KeyError'), op('get', k=KB, fx=0, ft=0, mk='KeyError')]
+    rmw = [op('incr', k=KA, d=1, df=[0]), op('incr', k=KA, d=2, df=[0]), op('add', k=KA, v=7, ttl=[], tag=0), op('pop', k=KA, fx=0, ft=0)]
+    for i in range(120 if tier == 'quick' else 3000):
+        p1 = [rt(rng.choice(rmw)) for _ in range(rng.randint(1, 3))]
+        p2 = [rt(rng.choice(fails + rmw)) for _ in range(rng.randint(1, 2))]
+        if rng.random() < 0.5:
+            p1.insert(rng.randrange(len(p1) + 1), rt(rng.choice(fails)))
+        else:
+            p2.insert(rng.randrange(len(p2) + 1), rt(rng.choice(fails)))
+        prog = {1: p1, 2: p2, 3: [rt(rng.choice(rmw)) for _ in range(rng.randint(1, 2))]}
+        cfg = base_cfg(rng, False, rng.choice(['absent', 'inline']))
+        cfg['shared'] = 2
+        jobs_rand.append((cfg, prog, 'hunter', seed * 100000 + 50000 + i, 0))
     design_level(out, 'C05', tier)
     sch = tlc_schedules('pairs', tier, seed) + (tlc_schedules('triples', tier, seed) + tlc_schedules('seq', tier, seed) if tier == 'thorough' else [])
     rng.shuffle(sch)
